@@ -134,10 +134,12 @@ func runAuth(c Case, tr *Tracer) {
 			site = "cmpp20.NewConnect"
 		} else {
 			auth = cmpp.GenConnectAuth(acc, sec, cmpp.TimeStamp2Str(ts))
+			_ = cmpp.GenConnectAuth("other1", "another secret", "0101010101") // (a second link computes its digest before this one is used)
 			req = &cmpp20.PduConnect{Header: cmpp.NewHeader(0, cmpp.CommandConnect, 7), SourceAddr: acc, AuthenticatorSource: string(auth), Version: cmpp.Version20, Timestamp: ts}
 		}
 	case "cmpp30":
 		auth = cmpp.GenConnectAuth(acc, sec, cmpp.TimeStamp2Str(ts))
+		_ = cmpp.GenConnectAuth("other1", "another secret", "0101010101")
 		req = &cmpp30.Connect{Header: cmpp.NewHeader(0, cmpp.CommandConnect, 7), SourceAddr: acc, AuthenticatorSource: string(auth), Version: cmpp.Version30, Timestamp: ts}
 	case "smgp30":
 		if ctor {
